@@ -723,6 +723,17 @@ def run(ctx):
         done.append(scn)
         D.add(('scn', repr(scn)), True, kind)
     decode_cases(rng, q, add)
+    # walks of the session sequence counter: k real increments from n against the closed form of
+    # C06_seq_closed_form (starts near the 32-bit wrap, at 1, and random)
+    from pyipmi.session import Session
+    for n in [1, 2, 0xfffffffe, 0xffffffff, 0xffffff00, 0xfffffc00] + [rng.randrange(1, 1 << 32) for _ in range(10)]:
+        for k in (0, 1, 2, 3, 255, 256, 257, 1500):
+            s_ = Session()
+            s_.sequence_number = n
+            for _ in range(k):
+                s_.increment_sequence_number()
+            add('chk_seq_walk %d %d %d' % (n, k, s_.sequence_number), ('seq_walk', n, k))
+            D.add(('seq_walk', n, k), True, 'seq_walk')
     failing, errors = C.coq_cases('C06', 'Model.Rmcp Model.Session Model.Bmc15 Corr.C05 Corr.C06', terms, shard=40)
     res.mismatches = [{'case': meta[i], 'term': terms[i][:600]} for i in failing[:30]]
     res.corr_errors = errors
